@@ -218,6 +218,7 @@ struct TapRec {
   bool started = false, completed = false, destroyed = false;
 };
 TapRec* tap_new(int node);
+void maybe_throw_on_connect(int node);  // plan-level fault: the k-th connect of a node throws
 void tap_signal(TapRec* t, int ch, long payload);
 void tap_signal_exit(TapRec* t);
 
@@ -233,6 +234,7 @@ struct any_snd {
   static constexpr bool sends_done = true;
   template <class R>
   any_op<unifex::remove_cvref_t<R>> connect(R&& r) const {
+    maybe_throw_on_connect(n->id);
     return any_op<unifex::remove_cvref_t<R>>{n, (R &&) r};
   }
 };
